@@ -640,3 +640,99 @@ Proof.
     rewrite escape_cons, IH. destruct (is_head hs b); reflexivity.
   - cbn [is_empty]. apply (unescape_loop_escape hs (e0 :: er)); [discriminate|exact Ha|exact Hr|lia].
 Qed.
+
+(* ---- runeCountAndHasOnlyCRLF: a decoded rune below 0x40 is a single ASCII byte --------------------- *)
+Local Open Scope N_scope.
+
+Lemma small_lor t c6 : N.lor (N.shiftl t 6) c6 < 64 -> t = 0.
+Proof.
+  intro Hlt.
+  assert (N.shiftr (N.lor (N.shiftl t 6) c6) 6 = 0) as Hs.
+  { rewrite N.shiftr_div_pow2. apply N.div_small. exact Hlt. }
+  rewrite N.shiftr_lor, N.shiftr_shiftl_l in Hs by lia. replace (6 - 6) with 0 in Hs by lia.
+  rewrite N.shiftl_0_r in Hs. apply N.lor_eq_0_l in Hs. exact Hs.
+Qed.
+
+Lemma land_mod a k m : m = N.ones k -> N.land a m = a mod 2 ^ k.
+Proof. intros ->. apply N.land_ones. Qed.
+
+Lemma decode_rune_small s r n : decode_rune s = (r, n) -> r < 64 ->
+  exists b t, s = b :: t /\ n = 1%nat /\ r = b2n b.
+Proof.
+  intros Hd Hr. destruct s as [|b0 rest]; [simpl in Hd; inversion Hd; subst; unfold RuneError in Hr; lia|].
+  exists b0, rest. split; [reflexivity|]. revert Hd. unfold decode_rune.
+  assert (HRE : forall k, (RuneError, k) = (r, n) -> False).
+  { intros k Hk. inversion Hk; subst. unfold RuneError in Hr. lia. }
+  destruct (b2n b0 <? 128) eqn:E1; [intro Hd; inversion Hd; subst; auto|].
+  destruct (b2n b0 <? 194) eqn:E2; [intro Hd; exfalso; eapply HRE; exact Hd|].
+  apply N.ltb_ge in E1. apply N.ltb_ge in E2.
+  destruct (b2n b0 <? 224) eqn:E3.
+  { apply N.ltb_lt in E3. destruct rest as [|b1 rest]; [intro Hd; exfalso; eapply HRE; exact Hd|].
+    destruct (in_range 128 191 b1); [|intro Hd; exfalso; eapply HRE; exact Hd].
+    intro Hd. inversion Hd; subst. exfalso. apply small_lor in Hr.
+    rewrite (land_mod _ 5) in Hr by reflexivity.
+    pose proof (N.div_mod' (b2n b0) (2 ^ 5)) as Hdm. change (2 ^ 5) with 32 in *. lia. }
+  apply N.ltb_ge in E3.
+  destruct (b2n b0 <? 240) eqn:E4.
+  { apply N.ltb_lt in E4. destruct rest as [|b1 [|b2 rest]]; try (intro Hd; exfalso; eapply HRE; exact Hd).
+    match goal with |- (if ?cnd then _ else _) = _ -> _ => destruct cnd eqn:R end;
+      [|intro Hd; exfalso; eapply HRE; exact Hd].
+    apply andb_prop in R as [R1 _].
+    intro Hd. inversion Hd; subst. exfalso.
+    replace 12 with (6 + 6) in Hr by reflexivity. rewrite <- N.shiftl_shiftl, <- N.shiftl_lor in Hr.
+    apply small_lor in Hr. apply N.lor_eq_0_iff in Hr as [Ht Hc]. apply N.shiftl_eq_0_iff in Ht.
+    rewrite (land_mod _ 4) in Ht by reflexivity.
+    pose proof (N.div_mod' (b2n b0) (2 ^ 4)) as Hdm. change (2 ^ 4) with 16 in *.
+    assert (b2n b0 = 224) as Hx by lia. rewrite Hx in R1. simpl in R1.
+    unfold in_range in R1. apply andb_prop in R1 as [Ra Rb]. apply N.leb_le in Ra. apply N.leb_le in Rb.
+    unfold low6 in Hc. rewrite (land_mod _ 6) in Hc by reflexivity.
+    pose proof (N.div_mod' (b2n b1) (2 ^ 6)) as Hdm1. change (2 ^ 6) with 64 in *. lia. }
+  apply N.ltb_ge in E4.
+  destruct (b2n b0 <? 245) eqn:E5; [|intro Hd; exfalso; eapply HRE; exact Hd].
+  apply N.ltb_lt in E5.
+  destruct rest as [|b1 [|b2 [|b3 rest]]]; try (intro Hd; exfalso; eapply HRE; exact Hd).
+  match goal with |- (if ?cnd then _ else _) = _ -> _ => destruct cnd eqn:R end;
+    [|intro Hd; exfalso; eapply HRE; exact Hd].
+  apply andb_prop in R as [R12 _]. apply andb_prop in R12 as [R1 _].
+  intro Hd. inversion Hd; subst. exfalso.
+  replace 18 with (6 + 6 + 6) in Hr by reflexivity. replace 12 with (6 + 6) in Hr by reflexivity.
+  rewrite <- !N.shiftl_shiftl, <- !N.shiftl_lor in Hr.
+  apply small_lor in Hr. apply N.lor_eq_0_iff in Hr as [Ht _]. apply N.shiftl_eq_0_iff in Ht.
+  apply N.lor_eq_0_iff in Ht as [Ht Hc]. apply N.shiftl_eq_0_iff in Ht.
+  rewrite (land_mod _ 3) in Ht by reflexivity.
+  pose proof (N.div_mod' (b2n b0) (2 ^ 3)) as Hdm. change (2 ^ 3) with 8 in *.
+  assert (b2n b0 = 240) as Hx by lia. rewrite Hx in R1. simpl in R1.
+  unfold in_range in R1. apply andb_prop in R1 as [Ra Rb]. apply N.leb_le in Ra. apply N.leb_le in Rb.
+  unfold low6 in Hc. rewrite (land_mod _ 6) in Hc by reflexivity.
+  pose proof (N.div_mod' (b2n b1) (2 ^ 6)) as Hdm1. change (2 ^ 6) with 64 in *. lia.
+Qed.
+
+Lemma b2n_inj a b : b2n a = b2n b -> a = b.
+Proof.
+  unfold b2n. intro Hn. assert (Byte.of_N (Byte.to_N a) = Byte.of_N (Byte.to_N b)) as Ho by congruence.
+  rewrite !Byte.of_to_N in Ho. congruence.
+Qed.
+
+Lemma only_crlf_fuel_non : forall k t, (length t <= k)%nat ->
+  (exists b, In b t /\ is_crlf b = false) -> only_crlf_fuel k t = false.
+Proof.
+  induction k as [|k IH]; intros t Hk (b & Hin & Hb).
+  - destruct t; [destruct Hin|simpl in Hk; lia].
+  - destruct t as [|b0 t]; [destruct Hin|]. cbn [only_crlf_fuel].
+    destruct (decode_rune (b0 :: t)) as [r n] eqn:Ed.
+    destruct (N.eqb r 10 || N.eqb r 13) eqn:Er; [|reflexivity]. cbn [andb].
+    assert (r < 64) as Hsmall.
+    { apply orb_prop in Er as [Er|Er]; apply N.eqb_eq in Er; lia. }
+    destruct (decode_rune_small _ _ _ Ed Hsmall) as (b' & t' & Hs & -> & Hrb). inversion Hs; subst b' t'.
+    cbn [skipn]. apply IH; [simpl in Hk; lia|].
+    destruct Hin as [<-|Hin]; [|exists b; auto].
+    exfalso. unfold is_crlf in Hb. apply orb_false_elim in Hb as [H1 H2].
+    apply byte_eqb_neq in H1. apply byte_eqb_neq in H2.
+    apply orb_prop in Er as [Er|Er]; apply N.eqb_eq in Er; rewrite Hrb in Er.
+    + apply H2. apply b2n_inj. exact Er.
+    + apply H1. apply b2n_inj. exact Er.
+Qed.
+
+Lemma only_crlf_non t : (exists b, In b t /\ is_crlf b = false) -> only_crlf t = false.
+Proof. apply only_crlf_fuel_non. lia. Qed.
+Local Close Scope N_scope.
